@@ -632,3 +632,441 @@ Proof.
               ND eq_refl Hal E Hin Hgone) as (id & es & Hp & EP & Hh).
   exists id, es. repeat split; try assumption. intro HF. rewrite run_history_kept by exact HF. exact Hh.
 Qed.
+
+(** * Recovery *)
+
+(** the (id, parseable entries) of the files a successful pass archives, in directory order *)
+Fixpoint eligible_entries (wal : wdir) (keep : N) : list (N * list entry) :=
+  match wal with
+  | [] => []
+  | (n, o) :: r =>
+      match parse_log_name n, o with
+      | Some id, WFile ls =>
+          if walarch_eligible id keep then
+            match parse_lines ls with
+            | Some es => (id, es) :: eligible_entries r keep
+            | None => eligible_entries r keep
+            end
+          else eligible_entries r keep
+      | _, _ => eligible_entries r keep
+      end
+  end.
+Definition id_leb (a b : N * list entry) : bool := fst a <=? fst b.
+(** the entries of the archived logs in log-id order *)
+Definition expected_recovery (wal : wdir) (keep : N) : list entry :=
+  flat_map snd (isort_by id_leb (eligible_entries wal keep)).
+
+Definition arch_of (x : N * list entry) : bytes * aobj :=
+  (afile_name (make_archive (fst x) (snd x)), AFile (make_archive (fst x) (snd x))).
+
+Lemma eligible_entries_in : forall wal keep id es,
+  In (id, es) (eligible_entries wal keep) ->
+  exists n ls, In (n, WFile ls) wal /\ parse_log_name n = Some id /\ walarch_eligible id keep = true /\
+               parse_lines ls = Some es.
+Proof.
+  induction wal as [|[n o] r IH]; intros keep id es H; cbn [eligible_entries] in H; [destruct H|].
+  assert (G : In (id, es) (eligible_entries r keep) ->
+              exists n0 ls, In (n0, WFile ls) ((n, o) :: r) /\ parse_log_name n0 = Some id /\
+                            walarch_eligible id keep = true /\ parse_lines ls = Some es).
+  { intro H'. destruct (IH _ _ _ H') as (n0 & ls & H1 & H2). exists n0, ls. split; [right; exact H1|exact H2]. }
+  destruct (parse_log_name n) as [id'|] eqn:Hp; [|auto]. destruct o as [ls|]; [|auto].
+  destruct (walarch_eligible id' keep) eqn:He; [|auto].
+  destruct (parse_lines ls) as [es'|] eqn:EP; [|auto].
+  destruct H as [E|H]; [|auto]. inversion E. subst. exists n, ls. repeat split; auto. left. reflexivity.
+Qed.
+
+Lemma put_fresh : forall A n (o : A) d, ~ In n (names d) -> put n o d = d ++ [(n, o)].
+Proof.
+  intros A n o d. induction d as [|[n' o'] r IH]; intro H; cbn [put app]; [reflexivity|].
+  destruct (bytes_eqb n n') eqn:E.
+  - apply bytes_eqb_eq in E. subst n'. exfalso. apply H. left. reflexivity.
+  - rewrite IH; [reflexivity|]. intro Hin. apply H. right. exact Hin.
+Qed.
+
+(** after a pass without failure over canonical names the archive directory is the old content
+    followed by one archive per eligible log, in scan order *)
+Lemma archive_scan_success_dir : forall io wal keep,
+  NoDup (names wal) -> has_aliased_name wal keep = false ->
+  forall todo root root' res,
+  incl todo wal -> root <> RNotDir ->
+  archive_scan io wal todo root keep = (root', res) -> existsb is_none res = false ->
+  (forall x, In x (eligible_entries todo keep) -> ~ In (fst (arch_of x)) (names (dir_of root))) ->
+  NoDup (map (fun x => fst (arch_of x)) (eligible_entries todo keep)) ->
+  root' <> RNotDir /\ dir_of root' = dir_of root ++ map arch_of (eligible_entries todo keep).
+Proof.
+  intros io wal keep ND Hal todo. induction todo as [|[n o] r IH]; intros root root' res Hincl Hroot H Hok Hfresh Hnd;
+    cbn [archive_scan] in H.
+  - inversion H. subst. cbn [eligible_entries map]. rewrite app_nil_r. auto.
+  - assert (Hr : incl r wal) by (intros x Hx; apply Hincl; right; exact Hx).
+    assert (Hin : In (n, o) wal) by (apply Hincl; left; reflexivity).
+    cbn [eligible_entries] in Hfresh, Hnd |- *.
+    destruct (parse_log_name n) as [id|] eqn:Hp; [|destruct o; eauto].
+    destruct (walarch_eligible id keep) eqn:He; [|destruct o; eauto].
+    destruct (archive_log io wal root id) as [root1 r1] eqn:E1.
+    destruct (archive_scan io wal r root1 keep) as [root2 rs] eqn:E2.
+    inversion H. subst root2 res. cbn [existsb] in Hok. apply orb_false_iff in Hok. destruct Hok as [Hr1 Hrs].
+    destruct r1 as [nm|]; [|discriminate].
+    destruct (archive_log_char _ _ _ _ _ _ E1) as [(C & _)|(ls & es & EL & EP & _ & _ & [(_ & C & _)|(Hio & _ & Eroot)])];
+      try discriminate.
+    pose proof (not_aliased _ _ _ _ _ Hal Hin Hp He) as En. subst n.
+    rewrite (in_lookup _ _ _ _ ND Hin) in EL. inversion EL. subst o.
+    rewrite EP in Hfresh, Hnd |- *. cbn [map] in Hnd. apply NoDup_cons_iff in Hnd. destruct Hnd as [Hnotin Hnd'].
+    assert (Hf0 : ~ In (afile_name (make_archive id es)) (names (dir_of root))).
+    { apply (Hfresh (id, es)). left. reflexivity. }
+    rewrite put_fresh in Eroot by exact Hf0. subst root1.
+    assert (Hnd1 : RDir (dir_of root ++ [(afile_name (make_archive id es), AFile (make_archive id es))]) <> RNotDir)
+      by discriminate.
+    destruct (IH _ _ _ Hr Hnd1 E2 Hrs) as (G1 & G2).
+    + intros x Hx. cbn [dir_of]. unfold names. rewrite map_app. cbn [map fst]. intro Hc. apply in_app_or in Hc.
+      destruct Hc as [Hc|[Hc|[]]].
+      * apply (Hfresh x); [right; exact Hx|exact Hc].
+      * apply Hnotin. apply in_map_iff. exists x. split; [symmetry; exact Hc|exact Hx].
+    + exact Hnd'.
+    + split; [exact G1|]. rewrite G2. cbn [dir_of map]. rewrite <- app_assoc. reflexivity.
+Qed.
+
+Lemma eligible_ids_nodup : forall wal keep,
+  NoDup (names wal) ->
+  (forall n o id, In (n, o) wal -> parse_log_name n = Some id -> walarch_eligible id keep = true -> n = log_name id) ->
+  NoDup (map fst (eligible_entries wal keep)).
+Proof.
+  induction wal as [|[n o] r IH]; intros keep ND Hcan; cbn [eligible_entries]; [constructor|].
+  cbn [names map fst] in ND. inversion ND as [|? ? Hnotin ND']. subst.
+  assert (IHr : NoDup (map fst (eligible_entries r keep))).
+  { apply IH; [exact ND'|]. intros n0 o0 id0 Hin. apply (Hcan n0 o0 id0). right. exact Hin. }
+  destruct (parse_log_name n) as [id|] eqn:Hp; [|exact IHr]. destruct o as [ls|]; [|exact IHr].
+  destruct (walarch_eligible id keep) eqn:He; [|exact IHr].
+  destruct (parse_lines ls) as [es|]; [|exact IHr].
+  cbn [map fst]. constructor; [|exact IHr]. intro Hin. apply in_map_iff in Hin. destruct Hin as ([id' es'] & E & Hin).
+  cbn [fst] in E. subst id'. destruct (eligible_entries_in _ _ _ _ Hin) as (n' & ls' & H1 & H2 & H3 & _).
+  assert (n' = log_name id) by (apply (Hcan n' (WFile ls') id); [right; exact H1|exact H2|exact H3]).
+  assert (n = log_name id) by (apply (Hcan n (WFile ls) id); [left; reflexivity|exact Hp|exact He]).
+  subst n n'. apply Hnotin. apply in_map_iff. exists (log_name id, WFile ls'). auto.
+Qed.
+
+(** ** Sorting *)
+
+Lemma insert_by_in : forall A (leb : A -> A -> bool) x l y, In y (insert_by leb x l) <-> y = x \/ In y l.
+Proof.
+  intros A leb x l y. induction l as [|z l IH]; cbn [insert_by].
+  - cbn [In]. intuition.
+  - destruct (leb x z); cbn [In]; [intuition|]. rewrite IH. intuition.
+Qed.
+
+Lemma isort_by_in : forall A (leb : A -> A -> bool) l y, In y (isort_by leb l) <-> In y l.
+Proof.
+  intros A leb l y. induction l as [|x l IH]; cbn [isort_by fold_right]; [reflexivity|].
+  fold (isort_by leb l). rewrite insert_by_in, IH. cbn [In]. intuition.
+Qed.
+
+Lemma insert_by_map : forall A B (f : A -> B) (leA : A -> A -> bool) (leB : B -> B -> bool) a s,
+  (forall b, In b s -> leB (f a) (f b) = leA a b) ->
+  insert_by leB (f a) (map f s) = map f (insert_by leA a s).
+Proof.
+  intros A B f leA leB a s. induction s as [|b s IH]; intro H; cbn [map insert_by]; [reflexivity|].
+  rewrite (H b) by (left; reflexivity). destruct (leA a b); cbn [map]; [reflexivity|].
+  rewrite IH; [reflexivity|]. intros b' Hb'. apply H. right. exact Hb'.
+Qed.
+
+Lemma isort_by_map : forall A B (f : A -> B) (leA : A -> A -> bool) (leB : B -> B -> bool) l,
+  (forall a b, In a l -> In b l -> leB (f a) (f b) = leA a b) ->
+  isort_by leB (map f l) = map f (isort_by leA l).
+Proof.
+  intros A B f leA leB l. induction l as [|a l IH]; intro H; cbn [map isort_by fold_right]; [reflexivity|].
+  fold (isort_by leB (map f l)). fold (isort_by leA l).
+  rewrite IH by (intros x y Hx Hy; apply H; right; assumption).
+  apply insert_by_map. intros b Hb. apply H; [left; reflexivity|]. right. apply isort_by_in in Hb. exact Hb.
+Qed.
+
+(** ** Name order = id order below 10^5 *)
+
+Lemma bytes_cmp_refl : forall a, bytes_cmp a a = Eq.
+Proof. induction a as [|x a IH]; cbn [bytes_cmp]; [reflexivity|]. rewrite N.compare_refl. exact IH. Qed.
+
+Lemma bytes_cmp_app : forall p x y, bytes_cmp (p ++ x) (p ++ y) = bytes_cmp x y.
+Proof. induction p as [|c p IH]; intros x y; cbn [app bytes_cmp]; [reflexivity|]. rewrite N.compare_refl. apply IH. Qed.
+
+Lemma pad_digits_cmp : forall w a b r r',
+  a < 10 ^ N.of_nat w -> b < 10 ^ N.of_nat w -> a <> b ->
+  bytes_cmp (pad_digits w a ++ r) (pad_digits w b ++ r') = N.compare a b.
+Proof.
+  induction w as [|w IH]; intros a b r r' Ha Hb Hab.
+  - change (10 ^ N.of_nat 0) with 1 in Ha, Hb. lia.
+  - rewrite pow10_succ in Ha, Hb. cbn [pad_digits]. rewrite <- !app_assoc. cbn [app].
+    destruct (N.eq_dec (a / 10) (b / 10)) as [E|E].
+    + rewrite E, bytes_cmp_app. cbn [bytes_cmp].
+      assert (a mod 10 < 10 /\ b mod 10 < 10) by (split; apply N.mod_lt; lia).
+      destruct (N.compare_spec (48 + a mod 10) (48 + b mod 10)); destruct (N.compare_spec a b); try lia; reflexivity.
+    + rewrite IH by lia.
+      destruct (N.compare_spec (a / 10) (b / 10)); destruct (N.compare_spec a b); try lia; reflexivity.
+Qed.
+
+Definition narrow (id : N) : Prop := id < 10 ^ N.of_nat walarch_arch_pad_width.
+
+Lemma archive_name_cmp : forall id s e id' s' e',
+  narrow id -> narrow id' -> id <> id' ->
+  bytes_cmp (archive_name id s e) (archive_name id' s' e') = N.compare id id'.
+Proof.
+  intros id s e id' s' e' H1 H2 Hne. unfold narrow in *. unfold archive_name, pad_dec.
+  destruct (N.ltb_spec id (10 ^ N.of_nat walarch_arch_pad_width)); [|lia].
+  destruct (N.ltb_spec id' (10 ^ N.of_nat walarch_arch_pad_width)); [|lia].
+  rewrite bytes_cmp_app. apply pad_digits_cmp; assumption.
+Qed.
+
+Lemma name_leb_arch : forall x y,
+  narrow (fst x) -> narrow (fst y) -> (fst x = fst y -> x = y) ->
+  name_leb (arch_of x) (arch_of y) = id_leb x y.
+Proof.
+  intros [id es] [id' es'] H1 H2 Hinj. cbn [fst] in *. unfold name_leb, id_leb, arch_of. cbn [fst].
+  destruct (N.eq_dec id id') as [E|E].
+  - specialize (Hinj E). inversion Hinj. subst. rewrite bytes_cmp_refl. symmetry. apply N.leb_le. lia.
+  - unfold afile_name, make_archive. cbn [a_log_id a_start a_end].
+    rewrite archive_name_cmp by assumption.
+    destruct (N.compare_spec id id'); destruct (N.leb_spec id id'); try lia; reflexivity.
+Qed.
+
+(** ** Extension *)
+
+Lemma strip_prefix_app : forall p y, strip_prefix p (p ++ y) = Some y.
+Proof. induction p as [|c p IH]; intro y; cbn [app strip_prefix]; [reflexivity|]. rewrite N.eqb_refl. apply IH. Qed.
+
+Lemma strip_suffix_app : forall q x, strip_suffix q (x ++ q) = Some x.
+Proof. intros q x. unfold strip_suffix. rewrite rev_app_distr, strip_prefix_app, rev_involutive. reflexivity. Qed.
+
+Lemma archive_name_has_ext : forall id s e, has_ext (archive_name id s e) = true.
+Proof.
+  intros id s e. unfold has_ext, archive_name.
+  change walarch_arch_suffix with ([46; 119; 97; 108] ++ walarch_ext).
+  rewrite !app_assoc. rewrite strip_suffix_app. rewrite <- !app_assoc.
+  unfold walarch_arch_prefix. cbn [app]. reflexivity.
+Qed.
+
+(** ** The round trip *)
+
+Definition wal_wf (wal : wdir) : Prop :=
+  Forall (fun p => match snd p with WFile ls => Forall line_wf ls | WDir => True end) wal.
+
+Lemma not_wide : forall wal keep n o id,
+  has_wide_id wal keep = false -> In (n, o) wal -> parse_log_name n = Some id ->
+  walarch_eligible id keep = true -> narrow id.
+Proof.
+  intros wal keep n o id H Hin Hp He. unfold has_wide_id in H.
+  destruct (wide_id keep (n, o)) eqn:E.
+  - assert (existsb (wide_id keep) wal = true) by (apply existsb_exists; eauto). congruence.
+  - unfold wide_id in E. cbn [fst] in E. rewrite Hp, He in E. cbn [andb] in E.
+    apply negb_false_iff in E. unfold narrow. lia.
+Qed.
+
+Lemma filter_ext_old : forall (d : adir),
+  (forall n o, In (n, o) d -> has_ext n = false) -> filter (fun p => has_ext (fst p)) d = [].
+Proof.
+  induction d as [|[n o] r IH]; intro H; cbn [filter fst]; [reflexivity|].
+  rewrite (H n o) by (left; reflexivity). apply IH. intros n' o' Hin. eapply H. right. exact Hin.
+Qed.
+
+Lemma filter_ext_new : forall l, filter (fun p => has_ext (fst p)) (map arch_of l) = map arch_of l.
+Proof.
+  induction l as [|x l IH]; cbn [map filter]; [reflexivity|].
+  unfold arch_of at 1. cbn [fst]. unfold afile_name. rewrite archive_name_has_ext. rewrite IH. reflexivity.
+Qed.
+
+Theorem recover_roundtrip_outside_known : forall fl wal keep root w' res,
+  NoDup (names wal) -> wal_wf wal ->
+  has_aliased_name wal keep = false -> has_wide_id wal keep = false ->
+  root <> RNotDir -> (forall n o, In (n, o) (dir_of root) -> has_ext n = false) ->
+  cleanup_up_to true fl (mkWorld wal None root) keep = (w', res) ->
+  existsb is_none res = false ->
+  recover_all (w_root w') = Some (expected_recovery wal keep).
+Proof.
+  intros fl wal keep root w' res ND Hwf Hal Hwide Hroot Hold H Hok. unfold cleanup_up_to in H.
+  cbn [w_wal w_root w_cwal] in H.
+  destruct (archive_logs_up_to (f_io fl) wal root keep) as [root1 res1] eqn:E.
+  assert (Hr : w_root w' = root1 /\ res = res1).
+  { destruct (walarch_abort_on_failure && existsb is_none res1); inversion H; subst; split; reflexivity. }
+  destruct Hr as [Hr ->]. rewrite Hr. clear H Hr. unfold archive_logs_up_to in E.
+  assert (Hcan : forall n o id, In (n, o) wal -> parse_log_name n = Some id -> walarch_eligible id keep = true ->
+                                n = log_name id) by (intros; eapply not_aliased; eassumption).
+  pose proof (eligible_ids_nodup wal keep ND Hcan) as Hids.
+  assert (Hinj : forall x y, In x (eligible_entries wal keep) -> In y (eligible_entries wal keep) -> fst x = fst y -> x = y).
+  { clear - Hids. induction (eligible_entries wal keep) as [|z l IH]; intros x y Hx Hy Exy; [destruct Hx|].
+    cbn [map] in Hids. inversion Hids as [|? ? Hn Hd]. subst.
+    destruct Hx as [->|Hx]; destruct Hy as [->|Hy]; auto.
+    - exfalso. apply Hn. rewrite Exy. apply in_map. exact Hy.
+    - exfalso. apply Hn. rewrite <- Exy. apply in_map. exact Hx. }
+  assert (Hnames : NoDup (map (fun x => fst (arch_of x)) (eligible_entries wal keep))).
+  { clear - Hids. induction (eligible_entries wal keep) as [|z l IH]; cbn [map]; [constructor|].
+    cbn [map] in Hids. inversion Hids as [|? ? Hn Hd]. subst. constructor; [|auto].
+    intro Hin. apply in_map_iff in Hin. destruct Hin as (y & Ey & Hy). unfold arch_of in Ey. cbn [fst] in Ey.
+    apply afile_name_inj_id in Ey. apply Hn. rewrite <- Ey. apply in_map. exact Hy. }
+  assert (Hfresh : forall x, In x (eligible_entries wal keep) -> ~ In (fst (arch_of x)) (names (dir_of root))).
+  { intros x Hx Hin. unfold names in Hin. apply in_map_iff in Hin. destruct Hin as ([n o] & En & Hin). cbn [fst] in En.
+    pose proof (Hold n o Hin) as Hne. rewrite En in Hne. unfold arch_of in Hne. cbn [fst] in Hne.
+    unfold afile_name in Hne. rewrite archive_name_has_ext in Hne. discriminate. }
+  destruct (archive_scan_success_dir _ wal keep ND Hal wal root root1 res1 (incl_refl _) Hroot E Hok Hfresh Hnames) as (G1 & G2).
+  unfold recover_all, list_archives.
+  destruct root1 as [| |d1]; [cbn [dir_of] in G2| congruence |].
+  - (* the directory was missing and nothing was archived *)
+    symmetry in G2. apply app_eq_nil in G2. destruct G2 as [_ G2]. unfold expected_recovery.
+    destruct (eligible_entries wal keep); [reflexivity|discriminate].
+  - cbn [dir_of] in G2. subst d1. rewrite filter_app, filter_ext_old by exact Hold. cbn [app].
+    rewrite filter_ext_new.
+    assert (Hnarrow : forall x, In x (eligible_entries wal keep) -> narrow (fst x)).
+    { intros [id es] Hx. destruct (eligible_entries_in _ _ _ _ Hx) as (n & ls & H1 & H2 & H3 & _).
+      cbn [fst]. eapply not_wide; eassumption. }
+    rewrite (isort_by_map _ _ arch_of id_leb name_leb).
+    2:{ intros a b Ha Hb. apply name_leb_arch; auto. }
+    f_equal. unfold expected_recovery.
+    assert (Hloss : forall x, In x (isort_by id_leb (eligible_entries wal keep)) -> map mp_entry (snd x) = snd x).
+    { intros [id es] Hx. apply isort_by_in in Hx. destruct (eligible_entries_in _ _ _ _ Hx) as (n & ls & H1 & _ & _ & H4).
+      cbn [snd]. eapply parse_lines_lossless; [|exact H4].
+      unfold wal_wf in Hwf. rewrite Forall_forall in Hwf. apply (Hwf _ H1). }
+    induction (isort_by id_leb (eligible_entries wal keep)) as [|x l IH]; cbn [map flat_map]; [reflexivity|].
+    rewrite IH by (intros y Hy; apply Hloss; right; exact Hy).
+    unfold arch_of at 1. cbn [snd entries_of]. unfold make_archive at 1. cbn [a_entries].
+    rewrite Hloss by (left; reflexivity). reflexivity.
+Qed.
+
+(** * Witnesses: where the property fails on the faithful model, and satisfiability of the hypotheses *)
+
+Definition wit_line (ts id : N) : line := LEntry (mkJEntry ts [99] [116] [] id).
+Definition wit_entry (ts id : N) : entry := entry_of_json (mkJEntry ts [99] [116] [] id).
+Definition no_faults : faults := mkFaults (fun _ => IoOk) (fun _ => true).
+(** "wal-1.log": scans to id 1 but is not the file [archive_log 1] opens ("wal-00001.log") *)
+Definition alias_1 : bytes := walarch_log_prefix ++ [49] ++ walarch_log_suffix.
+
+Definition wit_alias_world : world :=
+  mkWorld [(alias_1, WFile [wit_line 5 2]); (log_name 1, WFile [wit_line 5 1])] None RMissing.
+Definition wit_mismatch_world : world :=
+  mkWorld [] (Some [(log_name 0, WFile [wit_line 5 1])]) RMissing.
+
+Ltac nodup2 := constructor; [intros [H|[]]; vm_compute in H; discriminate H|constructor; [intros []|constructor]].
+Ltac nodup1 := constructor; [intros []|constructor].
+
+Theorem deleted_implies_archived_refuted :
+  (exists fl w keep n ls es,
+     NoDup (names (w_wal w)) /\ cleaner_dir_differs w = false /\ wal_wf (w_wal w) /\
+     In (n, WFile ls) (w_wal w) /\ parse_lines ls = Some es /\ es <> [] /\
+     lookup n (w_wal (fst (cleanup_up_to true fl w keep))) = None /\
+     forall nm f, root_lookup nm (w_root (fst (cleanup_up_to true fl w keep))) = Some (AFile f) -> a_entries f <> es)
+  /\
+  (exists fl w keep n ls es,
+     NoDup (names (cleaner_dir w)) /\ has_aliased_name (w_wal w) keep = false /\
+     has_aliased_name (cleaner_dir w) keep = false /\ wal_wf (cleaner_dir w) /\
+     In (n, WFile ls) (cleaner_dir w) /\ parse_lines ls = Some es /\ es <> [] /\
+     lookup n (cleaner_dir (fst (cleanup_up_to true fl w keep))) = None /\
+     forall nm f, root_lookup nm (w_root (fst (cleanup_up_to true fl w keep))) = Some (AFile f) -> a_entries f <> es).
+Proof.
+  split.
+  - exists no_faults, wit_alias_world, 2, alias_1, [wit_line 5 2], [wit_entry 5 2].
+    split; [cbn [wit_alias_world w_wal names map fst]; nodup2|].
+    split; [reflexivity|].
+    split; [repeat constructor|].
+    split; [left; reflexivity|].
+    split; [reflexivity|]. split; [discriminate|].
+    split; [vm_compute; reflexivity|].
+    intros nm f H. remember (cleanup_up_to true no_faults wit_alias_world 2) as r eqn:Er. vm_compute in Er. subst r.
+    unfold root_lookup in H. cbn [fst w_root dir_of lookup] in H.
+    destruct (bytes_eqb nm _); [|discriminate]. inversion H. subst f. vm_compute. discriminate.
+  - exists no_faults, wit_mismatch_world, 1, (log_name 0), [wit_line 5 1], [wit_entry 5 1].
+    split; [cbn [wit_mismatch_world cleaner_dir w_cwal names map fst]; nodup1|].
+    split; [reflexivity|]. split; [vm_compute; reflexivity|].
+    split; [repeat constructor|].
+    split; [left; reflexivity|].
+    split; [reflexivity|]. split; [discriminate|].
+    split; [vm_compute; reflexivity|].
+    intros nm f H. remember (cleanup_up_to true no_faults wit_mismatch_world 1) as r eqn:Er. vm_compute in Er. subst r.
+    unfold root_lookup in H. cbn [fst w_root dir_of lookup] in H. discriminate.
+Qed.
+
+(** ids 99999 and 100000: the six-digit name sorts before the five-digit one *)
+Definition wit_wide_wal : wdir :=
+  [(log_name 99999, WFile [wit_line 5 1]); (log_name 100000, WFile [wit_line 6 2])].
+
+Theorem recover_roundtrip_refuted :
+  exists fl wal keep root,
+    NoDup (names wal) /\ wal_wf wal /\ has_aliased_name wal keep = false /\ root = RMissing /\
+    existsb is_none (snd (cleanup_up_to true fl (mkWorld wal None root) keep)) = false /\
+    recover_all (w_root (fst (cleanup_up_to true fl (mkWorld wal None root) keep))) <> Some (expected_recovery wal keep).
+Proof.
+  exists no_faults, wit_wide_wal, 100001, RMissing.
+  split; [cbn [wit_wide_wal names map fst]; nodup2|].
+  split; [repeat constructor|].
+  split; [vm_compute; reflexivity|]. split; [reflexivity|].
+  split; [vm_compute; reflexivity|].
+  vm_compute. discriminate.
+Qed.
+
+(** two lifetimes: the WAL id restarts at 0, the second log 0 covers the same second as the first *)
+Definition wit_round1 : round := mkRound [(log_name 0, WFile [wit_line 5 1])] 1 no_faults.
+Definition wit_round2 : round := mkRound [(log_name 0, WFile [wit_line 5 2])] 1 no_faults.
+
+Theorem archive_names_unique_refuted :
+  exists root r1 r2 n ls es,
+    NoDup (names (r_wal r1)) /\ has_aliased_name (r_wal r1) (r_keep r1) = false /\ wal_wf (r_wal r1) /\
+    NoDup (names (r_wal r2)) /\ has_aliased_name (r_wal r2) (r_keep r2) = false /\ wal_wf (r_wal r2) /\
+    In (n, WFile ls) (r_wal r1) /\ parse_lines ls = Some es /\ es <> [] /\
+    lookup n (snd (fst (run_round root r1))) = None /\
+    existsb is_none (snd (run_round (fst (fst (run_round root r1))) r2)) = false /\
+    forall nm f, root_lookup nm (run_history root [r1; r2]) = Some (AFile f) -> a_entries f <> es.
+Proof.
+  exists RMissing, wit_round1, wit_round2, (log_name 0), [wit_line 5 1], [wit_entry 5 1].
+  split; [cbn [wit_round1 r_wal names map fst]; nodup1|]. split; [vm_compute; reflexivity|]. split; [repeat constructor|].
+  split; [cbn [wit_round2 r_wal names map fst]; nodup1|]. split; [vm_compute; reflexivity|]. split; [repeat constructor|].
+  split; [left; reflexivity|]. split; [reflexivity|]. split; [discriminate|].
+  split; [vm_compute; reflexivity|]. split; [vm_compute; reflexivity|].
+  intros nm f H. remember (run_history RMissing [wit_round1; wit_round2]) as r eqn:Er. vm_compute in Er. subst r.
+  unfold root_lookup in H. cbn [dir_of lookup] in H.
+  destruct (bytes_eqb nm _); [|discriminate]. inversion H. subst f. vm_compute. discriminate.
+Qed.
+
+(** ** The hypotheses of the positive theorems are satisfiable, with a non-trivial outcome *)
+
+Definition ex_wal : wdir :=
+  [(log_name 1, WFile [wit_line 7 3; LJunk]); (log_name 0, WFile [wit_line 5 1; LBlank; wit_line 6 2]);
+   (log_name 2, WFile [wit_line 9 4])].
+
+(** a squatting directory on the archive name of log 1: log 0 is archived, nothing is deleted *)
+Definition ex_squat_root : aroot := RDir [(archive_name 1 7 7, ADirEnt)].
+
+Example ex_no_delete_on_failure :
+  let r := cleanup_up_to true no_faults (mkWorld ex_wal None ex_squat_root) 2 in
+  existsb is_none (snd r) = true /\ w_wal (fst r) = ex_wal /\
+  In (Some (archive_name 0 5 6)) (snd r) /\
+  root_lookup (archive_name 0 5 6) (w_root (fst r)) = Some (AFile (make_archive 0 [wit_entry 5 1; wit_entry 6 2])).
+Proof. vm_compute. repeat split; auto. Qed.
+
+Example ex_deleted_archived_recovered :
+  let r := cleanup_up_to true no_faults (mkWorld ex_wal None RMissing) 2 in
+  NoDup (names ex_wal) /\ wal_wf ex_wal /\ has_aliased_name ex_wal 2 = false /\ has_wide_id ex_wal 2 = false /\
+  existsb is_none (snd r) = false /\
+  names (w_wal (fst r)) = [log_name 2] /\
+  recover_all (w_root (fst r)) = Some [wit_entry 5 1; wit_entry 6 2; wit_entry 7 3].
+Proof.
+  cbv zeta. split.
+  { cbn [ex_wal names map fst]. constructor; [intros [H|[H|[]]]; vm_compute in H; discriminate H|nodup2]. }
+  split; [repeat constructor|]. vm_compute. repeat split; reflexivity.
+Qed.
+
+Example ex_name_not_reused :
+  name_reused (archive_name 0 5 5) (r_wal wit_round2) (r_keep wit_round2) = true /\
+  name_reused (archive_name 0 5 5) ex_wal 3 = false.
+Proof. vm_compute. split; reflexivity. Qed.
+
+Example ex_fault_oracle :
+  let fl := mkFaults (fun id => if id =? 1 then IoFailLate else IoOk) (fun _ => true) in
+  let r := cleanup_up_to true fl (mkWorld ex_wal None RMissing) 3 in
+  existsb is_none (snd r) = true /\ w_wal (fst r) = ex_wal /\
+  root_lookup (archive_name 1 7 7) (w_root (fst r)) = Some AGarbage /\
+  root_lookup (archive_name 2 9 9) (w_root (fst r)) = Some (AFile (make_archive 2 [wit_entry 9 4])).
+Proof. vm_compute. repeat split; reflexivity. Qed.
+
+Theorem archive_roundtrip_lossless : forall id ls es,
+  Forall line_wf ls -> parse_lines ls = Some es ->
+  a_entries (make_archive id es) = es.
+Proof. intros id ls es H1 H2. unfold make_archive. cbn [a_entries]. exact (parse_lines_lossless ls es H1 H2). Qed.
+
+Example ex_lossless :
+  Forall line_wf [wit_line 5 1; LJunk; LEntry (mkJEntry 6 [99] [116] [([98], JInt 18446744073709551615); ([97], JFloat 4609434218613702656); ([98], JNested [91; 93])] 2)]
+  /\ parse_lines [wit_line 5 1; LJunk; LEntry (mkJEntry 6 [99] [116] [([98], JInt 18446744073709551615); ([97], JFloat 4609434218613702656); ([98], JNested [91; 93])] 2)]
+     = Some [wit_entry 5 1; mkEntry 6 [99] [116] [([97], SFloat 4609434218613702656); ([98], SUtf8 [91; 93])] 2].
+Proof. split; [repeat constructor|vm_compute; reflexivity]. Qed.
